@@ -490,6 +490,14 @@ def RelH (veq : V → V → Bool) (hist : List (List (K × V))) (k : K) : Option
   | some v', some v => v' = v ∨ (veq v' v = true ∧ ∃ m ∈ hist, (k, v') ∈ m)
   | _, _ => False
 
+/-- No "`==`-twins" in an object's results: no two values that one index function returned for
+    one object under one key (at any two calls) are `==`-equal yet different (`1` and `True`,
+    `0` and `False`, `[1]` and `[True]`, …). This is a property of a HISTORY, satisfiable with
+    Python's real `==`; it excludes exactly the inputs on which `Store._replace`'s "only if really
+    changed" test can drop an update (finding C17-F1). -/
+def NoTwins (veq : V → V → Bool) (hist : List (List (K × V))) : Prop :=
+  ∀ m1 ∈ hist, ∀ m2 ∈ hist, ∀ k v1 v2, (k, v1) ∈ m1 → (k, v2) ∈ m2 → veq v1 v2 = true → v1 = v2
+
 end Vocabulary
 
 section Vocabulary2
